@@ -440,6 +440,18 @@ func (e *Eng) pureWrite(st *State, ref string, what string) {
 	if e.con != nil && e.con.Pure && !e.localRefs[ref] {
 		e.oblige(st, "pure", "heap-write "+what, "false", token.NoPos)
 	}
+	if e.con != nil && e.con.HasFrame && !e.localRefs[ref] {
+		name := what
+		switch what {
+		case "slice element":
+			name = "E$"
+		case "map element":
+			name = "MH$"
+		}
+		if !frameMatchAny(name, e.con.Modifies) {
+			e.oblige(st, "modifies", "heap-write outside frame "+what, "false", token.NoPos)
+		}
+	}
 }
 
 func (e *Eng) globalVal(key string, t types.Type) *Val {
